@@ -326,9 +326,17 @@ Proof.
   unfold acquire_service. rewrite name_checks.
   destruct (negb (requestable name)) eqn:Ereq; [auto|].
   apply negb_false_iff in Ereq.
-  rewrite andb_true_r. rewrite (R_limit b s Rr), (held_owned b s cn I Rr Hin).
-  destruct (b_limit b <=? nlen (c_owned cn)) eqn:Elim; [auto|].
+  rewrite (R_limit b s Rr), (held_owned b s cn I Rr Hin).
   rewrite (R_names b s Rr). unfold mget.
+  assert (Hholds : match lookup (b_services b) (KW name) with
+                   | Some q => match find_owner q (c_id cn) with Some _ => true | None => false end
+                   | None => false
+                   end = queued (c_id cn) match lookup (b_services b) (KW name) with Some q => q | None => [] end).
+  { destruct (lookup (b_services b) (KW name)) as [q|]; [|reflexivity].
+    assert (Hfq := find_owner_queued q (c_id cn)). destruct (find_owner q (c_id cn)); rewrite Hfq; reflexivity. }
+  rewrite Hholds.
+  destruct ((b_limit b <=? nlen (c_owned cn)) &&
+            negb (queued (c_id cn) match lookup (b_services b) (KW name) with Some q => q | None => [] end)) eqn:Elim; [auto|].
   rewrite has_flag_dnq, has_flag_replace.
   destruct (lookup (b_services b) (KW name)) as [q|] eqn:El.
   2: { (* nobody owns the name *)
